@@ -396,7 +396,10 @@ fn exec_paths(t: &mut Tape, st: &mut Stats) -> Result<(), String> {
     let obs = match run_exchange(&spec, None, &stream, &mut Sched::canonical()).map_err(|e| format!("{}: {}", what, e))? {
         Outcome::Done(o, _) => o,
         Outcome::Premature(_) => return Err("harness: premature".into()),
-        Outcome::FollowedWithoutInheritedExpect => return Err("harness: outcome of a followed flow on a fresh one".into()),
+        Outcome::NotCompared(why) => {
+            st.class(why);
+            return Ok(());
+        }
     };
     check_against_truth(&spec, &obs, true, stream.len()).map_err(|e| format!("{}: expected framing {:?}: {}", what, framing, e))?;
     if let (Some(m), true) = (&obs.body_mode, obs.body_state_entered) {
